@@ -1,5 +1,7 @@
 (** C03: disposition of every inventoried panic site of the `ide` crate (GenPanicSites.v, regenerated from the
-    sources on every run).  A site that is not listed here (new `unwrap` / `expect` / `panic!` / index expression /
+    sources on every run).  A site is identified by (file, enclosing fn, kind of construct, callee / macro name, ordinal
+    among the sites with the same first four components) - not by its source text, so renaming locals, comments, messages
+    and formatting do not change it (see tools/translate/t_panicsites.py).  A site that is not listed here (new `unwrap` / `expect` / `panic!` / index expression /
     asserting library call, or an old one that moved to another function) makes [all_sites_disposed] false, i.e.
     breaks the obligation C03_panic_sites_inventoried. *)
 From Coq Require Import String List Bool Arith.
@@ -12,56 +14,56 @@ Inductive disposition :=
 | Oracle (why : string)        (* only exercised: all queries at all offsets in a child process *)
 | OutOfScope (why : string).   (* belongs to another property *)
 
-Definition site := (string * string * string * nat)%type.
+Definition site := (string * string * string * string * nat)%type.
 Definition site_eqb (a b : site) : bool :=
-  let '(f1, g1, t1, n1) := a in let '(f2, g2, t2, n2) := b in
-  String.eqb f1 f2 && String.eqb g1 g2 && String.eqb t1 t2 && Nat.eqb n1 n2.
+  let '(f1, g1, k1, c1, n1) := a in let '(f2, g2, k2, c2, n2) := b in
+  String.eqb f1 f2 && String.eqb g1 g2 && String.eqb k1 k2 && String.eqb c1 c2 && Nat.eqb n1 n2.
 
 Definition dispositions : list (site * disposition) := [
-  (("file_system.rs", "path_for_file", "[file_id]", 0%nat), OutOfScope "workspace collection: property C16 (path_for_file / collect_sources / INCLUDE_DIR)");
-  (("file_system.rs", "collect_sources", ".expect(""file dir not found"")", 0%nat), OutOfScope "workspace collection: property C16 (path_for_file / collect_sources / INCLUDE_DIR)");
-  (("file_system.rs", "collect_sources", ".unwrap()", 0%nat), OutOfScope "workspace collection: property C16 (path_for_file / collect_sources / INCLUDE_DIR)");
-  (("index.rs", "index", ".expect(""failed to SourceFile::cast"")", 0%nat), Oracle "indexer / handler code outside the op-level model: all queries at all offsets on generated programs, prefixes, token edits, stress patterns");
-  (("index.rs", "index", "panic!(""template arg decl outside of record or multiclass""", 0%nat), Oracle "indexer / handler code outside the op-level model: all queries at all offsets on generated programs, prefixes, token edits, stress patterns");
-  (("index.rs", "index", "panic!(""parent class list outside of record or multiclass""", 0%nat), Oracle "indexer / handler code outside the op-level model: all queries at all offsets on generated programs, prefixes, token edits, stress patterns");
-  (("index.rs", "check_template_args", ".unwrap()", 0%nat), Oracle "indexer / handler code outside the op-level model: all queries at all offsets on generated programs, prefixes, token edits, stress patterns");
-  (("index.rs", "index", ".expect(""field def outside of record"")", 0%nat), Oracle "indexer / handler code outside the op-level model: all queries at all offsets on generated programs, prefixes, token edits, stress patterns");
-  (("index.rs", "index", ".expect(""field let outside of record"")", 0%nat), Oracle "indexer / handler code outside the op-level model: all queries at all offsets on generated programs, prefixes, token edits, stress patterns");
-  (("line_index.rs", "new", ".expect(""text is too large"")", 0%nat), OutOfScope "position mapping: property C10");
-  (("line_index.rs", "utf16_col", "[start..end.max(start)]", 0%nat), OutOfScope "position mapping: property C10");
-  (("line_index.rs", "offset_at", "[offset..]", 0%nat), OutOfScope "position mapping: property C10");
-  (("line_index.rs", "offset_at", ".expect(""text is too large"")", 0%nat), OutOfScope "position mapping: property C10");
-  (("symbol_map.rs", "record", ".expect(""invalid record id"")", 0%nat), Proved "C03_symbol_map_total_partial for the modelled readers (find_symbol_at, goto_definition, references, find_field, is_subclass_of: IdsInv); other callers (indexer, hover, completion, document_symbol, inlay_hint) by oracle");
-  (("symbol_map.rs", "record_mut", ".expect(""invalid record id"")", 0%nat), Proved "apply_op_ok: under op_ids_ok (ids allocated before use, checked on every real log) no op fails");
-  (("symbol_map.rs", "template_arg", ".expect(""invalid template argument id"")", 0%nat), Proved "C03_symbol_map_total_partial for the modelled readers (find_symbol_at, goto_definition, references, find_field, is_subclass_of: IdsInv); other callers (indexer, hover, completion, document_symbol, inlay_hint) by oracle");
-  (("symbol_map.rs", "template_arg_mut", ".expect(""invalid template argument id"")", 0%nat), Proved "apply_op_ok: under op_ids_ok (ids allocated before use, checked on every real log) no op fails");
-  (("symbol_map.rs", "record_field", ".expect(""invalid record field id"")", 0%nat), Proved "C03_symbol_map_total_partial for the modelled readers (find_symbol_at, goto_definition, references, find_field, is_subclass_of: IdsInv); other callers (indexer, hover, completion, document_symbol, inlay_hint) by oracle");
-  (("symbol_map.rs", "record_field_mut", ".expect(""invalid record field id"")", 0%nat), Proved "apply_op_ok: under op_ids_ok (ids allocated before use, checked on every real log) no op fails");
-  (("symbol_map.rs", "variable", ".expect(""invalid variable id"")", 0%nat), Proved "C03_symbol_map_total_partial for the modelled readers (find_symbol_at, goto_definition, references, find_field, is_subclass_of: IdsInv); other callers (indexer, hover, completion, document_symbol, inlay_hint) by oracle");
-  (("symbol_map.rs", "variable_mut", ".expect(""invalid variable id"")", 0%nat), Proved "apply_op_ok: under op_ids_ok (ids allocated before use, checked on every real log) no op fails");
-  (("symbol_map.rs", "defset", ".expect(""invalid defset id"")", 0%nat), Proved "C03_symbol_map_total_partial for the modelled readers (find_symbol_at, goto_definition, references, find_field, is_subclass_of: IdsInv); other callers (indexer, hover, completion, document_symbol, inlay_hint) by oracle");
-  (("symbol_map.rs", "defset_mut", ".expect(""invalid defset id"")", 0%nat), Proved "apply_op_ok: under op_ids_ok (ids allocated before use, checked on every real log) no op fails");
-  (("symbol_map.rs", "multiclass", ".expect(""invalid multiclass id"")", 0%nat), Proved "C03_symbol_map_total_partial for the modelled readers (find_symbol_at, goto_definition, references, find_field, is_subclass_of: IdsInv); other callers (indexer, hover, completion, document_symbol, inlay_hint) by oracle");
-  (("symbol_map.rs", "multiclass_mut", ".expect(""invalid multiclass id"")", 0%nat), Proved "apply_op_ok: under op_ids_ok (ids allocated before use, checked on every real log) no op fails");
-  (("symbol_map.rs", "defm", ".expect(""invalid defm id"")", 0%nat), Proved "C03_symbol_map_total_partial for the modelled readers (find_symbol_at, goto_definition, references, find_field, is_subclass_of: IdsInv); other callers (indexer, hover, completion, document_symbol, inlay_hint) by oracle");
-  (("symbol_map.rs", "defm_mut", ".expect(""invalid defm id"")", 0%nat), Proved "apply_op_ok: under op_ids_ok (ids allocated before use, checked on every real log) no op fails");
-  (("symbol_map.rs", "iter_symbols_in_range", ".iter(loc.range)", 0%nat), Proved "iter_symbols_in_range_ok: the guard of fix 751cf5a excludes the empty query (C03_unguarded_range_query_panics shows it is needed)");
-  (("symbol_map.rs", "iter_symbols_in_range", "TextRange::new", 0%nat), Oracle "interval keys come out of iset with start < end (they were inserted non-empty): modelled, not verified");
-  (("symbol_map.rs", "add_anonymous_def", "assert!", 0%nat), Oracle "add_anonymous_def is only called from Def::index with RecordKind::Def (one call site)");
-  (("symbol_map.rs", "add_to_pos_to_symbol_map", ".insert(loc.range.into()", 0%nat), Proved "add_to_pos_ok: the is_empty filter excludes the empty insert (ivl_insert_checked never fails)");
-  (("utils.rs", "range_excluding_trivia", "TextRange::new", 0%nat), Oracle "indexer / handler code outside the op-level model: all queries at all offsets on generated programs, prefixes, token edits, stress patterns");
-  (("handlers/completion.rs", "exec", "token_at_offset", 0%nat), Oracle "indexer / handler code outside the op-level model: all queries at all offsets on generated programs, prefixes, token edits, stress patterns");
-  (("handlers/hover.rs", "extract_symbol_signature", "unreachable!(""unexpected record kind""", 0%nat), Oracle "indexer / handler code outside the op-level model: all queries at all offsets on generated programs, prefixes, token edits, stress patterns");
-  (("handlers/hover.rs", "extract_doc_comments", "covering_element", 0%nat), Oracle "indexer / handler code outside the op-level model: all queries at all offsets on generated programs, prefixes, token edits, stress patterns");
-  (("handlers/inlay_hint.rs", "inlay_hint_class", "covering_element", 0%nat), Oracle "indexer / handler code outside the op-level model: all queries at all offsets on generated programs, prefixes, token edits, stress patterns");
-  (("handlers/inlay_hint.rs", "inlay_hint_record_field", "covering_element", 0%nat), Oracle "indexer / handler code outside the op-level model: all queries at all offsets on generated programs, prefixes, token edits, stress patterns");
-  (("index/bang_operator.rs", "index", "unreachable!(""unexpected syntax kind: {:?}""", 0%nat), Oracle "indexer / handler code outside the op-level model: all queries at all offsets on generated programs, prefixes, token edits, stress patterns");
-  (("index/bang_operator.rs", "expect_values", "unimplemented!", 0%nat), Oracle "indexer / handler code outside the op-level model: all queries at all offsets on generated programs, prefixes, token edits, stress patterns");
-  (("index/context.rs", "current_file_id", ".expect(""file_trace is empty"")", 0%nat), Oracle "indexer / handler code outside the op-level model: all queries at all offsets on generated programs, prefixes, token edits, stress patterns");
-  (("index/context.rs", "pop_file", ".expect(""file_trace is empty"")", 0%nat), Oracle "indexer / handler code outside the op-level model: all queries at all offsets on generated programs, prefixes, token edits, stress patterns");
-  (("index/scope.rs", "pop", ".expect(""scope is empty"")", 0%nat), Oracle "indexer / handler code outside the op-level model: all queries at all offsets on generated programs, prefixes, token edits, stress patterns");
-  (("index/scope.rs", "add_variable", ".expect(""scope is empty"")", 0%nat), Oracle "indexer / handler code outside the op-level model: all queries at all offsets on generated programs, prefixes, token edits, stress patterns");
-  (("index/scope.rs", "find_variable_in_current_scope", ".expect(""scope is empty"")", 0%nat), Oracle "indexer / handler code outside the op-level model: all queries at all offsets on generated programs, prefixes, token edits, stress patterns")
+  (("file_system.rs", "path_for_file", "index", "self.id_to_path", 0%nat), OutOfScope "workspace collection: property C16 (path_for_file / collect_sources / INCLUDE_DIR)");
+  (("file_system.rs", "collect_sources", "method", "expect", 0%nat), OutOfScope "workspace collection: property C16 (path_for_file / collect_sources / INCLUDE_DIR)");
+  (("file_system.rs", "collect_sources", "method", "unwrap", 0%nat), OutOfScope "workspace collection: property C16 (path_for_file / collect_sources / INCLUDE_DIR)");
+  (("index.rs", "index", "method", "expect", 0%nat), Oracle "indexer / handler code outside the op-level model: all queries at all offsets on generated programs, prefixes, token edits, stress patterns");
+  (("index.rs", "index", "macro", "panic", 0%nat), Oracle "indexer / handler code outside the op-level model: all queries at all offsets on generated programs, prefixes, token edits, stress patterns");
+  (("index.rs", "index", "macro", "panic", 1%nat), Oracle "indexer / handler code outside the op-level model: all queries at all offsets on generated programs, prefixes, token edits, stress patterns");
+  (("index.rs", "check_template_args", "method", "unwrap", 0%nat), Oracle "indexer / handler code outside the op-level model: all queries at all offsets on generated programs, prefixes, token edits, stress patterns");
+  (("index.rs", "index", "method", "expect", 1%nat), Oracle "indexer / handler code outside the op-level model: all queries at all offsets on generated programs, prefixes, token edits, stress patterns");
+  (("index.rs", "index", "method", "expect", 2%nat), Oracle "indexer / handler code outside the op-level model: all queries at all offsets on generated programs, prefixes, token edits, stress patterns");
+  (("line_index.rs", "new", "method", "expect", 0%nat), OutOfScope "position mapping: property C10");
+  (("line_index.rs", "utf16_col", "index", "self.text", 0%nat), OutOfScope "position mapping: property C10");
+  (("line_index.rs", "offset_at", "index", "self.text", 0%nat), OutOfScope "position mapping: property C10");
+  (("line_index.rs", "offset_at", "method", "expect", 0%nat), OutOfScope "position mapping: property C10");
+  (("symbol_map.rs", "record", "method", "expect", 0%nat), Proved "C03_symbol_map_total_partial for the modelled readers (find_symbol_at, goto_definition, references, find_field, is_subclass_of: IdsInv); other callers (indexer, hover, completion, document_symbol, inlay_hint) by oracle");
+  (("symbol_map.rs", "record_mut", "method", "expect", 0%nat), Proved "apply_op_ok: under op_ids_ok (ids allocated before use, checked on every real log) no op fails");
+  (("symbol_map.rs", "template_arg", "method", "expect", 0%nat), Proved "C03_symbol_map_total_partial for the modelled readers (find_symbol_at, goto_definition, references, find_field, is_subclass_of: IdsInv); other callers (indexer, hover, completion, document_symbol, inlay_hint) by oracle");
+  (("symbol_map.rs", "template_arg_mut", "method", "expect", 0%nat), Proved "apply_op_ok: under op_ids_ok (ids allocated before use, checked on every real log) no op fails");
+  (("symbol_map.rs", "record_field", "method", "expect", 0%nat), Proved "C03_symbol_map_total_partial for the modelled readers (find_symbol_at, goto_definition, references, find_field, is_subclass_of: IdsInv); other callers (indexer, hover, completion, document_symbol, inlay_hint) by oracle");
+  (("symbol_map.rs", "record_field_mut", "method", "expect", 0%nat), Proved "apply_op_ok: under op_ids_ok (ids allocated before use, checked on every real log) no op fails");
+  (("symbol_map.rs", "variable", "method", "expect", 0%nat), Proved "C03_symbol_map_total_partial for the modelled readers (find_symbol_at, goto_definition, references, find_field, is_subclass_of: IdsInv); other callers (indexer, hover, completion, document_symbol, inlay_hint) by oracle");
+  (("symbol_map.rs", "variable_mut", "method", "expect", 0%nat), Proved "apply_op_ok: under op_ids_ok (ids allocated before use, checked on every real log) no op fails");
+  (("symbol_map.rs", "defset", "method", "expect", 0%nat), Proved "C03_symbol_map_total_partial for the modelled readers (find_symbol_at, goto_definition, references, find_field, is_subclass_of: IdsInv); other callers (indexer, hover, completion, document_symbol, inlay_hint) by oracle");
+  (("symbol_map.rs", "defset_mut", "method", "expect", 0%nat), Proved "apply_op_ok: under op_ids_ok (ids allocated before use, checked on every real log) no op fails");
+  (("symbol_map.rs", "multiclass", "method", "expect", 0%nat), Proved "C03_symbol_map_total_partial for the modelled readers (find_symbol_at, goto_definition, references, find_field, is_subclass_of: IdsInv); other callers (indexer, hover, completion, document_symbol, inlay_hint) by oracle");
+  (("symbol_map.rs", "multiclass_mut", "method", "expect", 0%nat), Proved "apply_op_ok: under op_ids_ok (ids allocated before use, checked on every real log) no op fails");
+  (("symbol_map.rs", "defm", "method", "expect", 0%nat), Proved "C03_symbol_map_total_partial for the modelled readers (find_symbol_at, goto_definition, references, find_field, is_subclass_of: IdsInv); other callers (indexer, hover, completion, document_symbol, inlay_hint) by oracle");
+  (("symbol_map.rs", "defm_mut", "method", "expect", 0%nat), Proved "apply_op_ok: under op_ids_ok (ids allocated before use, checked on every real log) no op fails");
+  (("symbol_map.rs", "iter_symbols_in_range", "libcall", "iset.iter(range)", 0%nat), Proved "iter_symbols_in_range_ok: the guard of fix 751cf5a excludes the empty query (C03_unguarded_range_query_panics shows it is needed)");
+  (("symbol_map.rs", "iter_symbols_in_range", "libcall", "TextRange::new", 0%nat), Oracle "interval keys come out of iset with start < end (they were inserted non-empty): modelled, not verified");
+  (("symbol_map.rs", "add_anonymous_def", "macro", "assert", 0%nat), Oracle "add_anonymous_def is only called from Def::index with RecordKind::Def (one call site)");
+  (("symbol_map.rs", "add_to_pos_to_symbol_map", "libcall", "iset.insert(range)", 0%nat), Proved "add_to_pos_ok: the is_empty filter excludes the empty insert (ivl_insert_checked never fails)");
+  (("utils.rs", "range_excluding_trivia", "libcall", "TextRange::new", 0%nat), Oracle "indexer / handler code outside the op-level model: all queries at all offsets on generated programs, prefixes, token edits, stress patterns");
+  (("handlers/completion.rs", "exec", "libcall", "token_at_offset", 0%nat), Oracle "indexer / handler code outside the op-level model: all queries at all offsets on generated programs, prefixes, token edits, stress patterns");
+  (("handlers/hover.rs", "extract_symbol_signature", "macro", "unreachable", 0%nat), Oracle "indexer / handler code outside the op-level model: all queries at all offsets on generated programs, prefixes, token edits, stress patterns");
+  (("handlers/hover.rs", "extract_doc_comments", "libcall", "covering_element", 0%nat), Oracle "indexer / handler code outside the op-level model: all queries at all offsets on generated programs, prefixes, token edits, stress patterns");
+  (("handlers/inlay_hint.rs", "inlay_hint_class", "libcall", "covering_element", 0%nat), Oracle "indexer / handler code outside the op-level model: all queries at all offsets on generated programs, prefixes, token edits, stress patterns");
+  (("handlers/inlay_hint.rs", "inlay_hint_record_field", "libcall", "covering_element", 0%nat), Oracle "indexer / handler code outside the op-level model: all queries at all offsets on generated programs, prefixes, token edits, stress patterns");
+  (("index/bang_operator.rs", "index", "macro", "unreachable", 0%nat), Oracle "indexer / handler code outside the op-level model: all queries at all offsets on generated programs, prefixes, token edits, stress patterns");
+  (("index/bang_operator.rs", "expect_values", "macro", "unimplemented", 0%nat), Oracle "indexer / handler code outside the op-level model: all queries at all offsets on generated programs, prefixes, token edits, stress patterns");
+  (("index/context.rs", "current_file_id", "method", "expect", 0%nat), Oracle "indexer / handler code outside the op-level model: all queries at all offsets on generated programs, prefixes, token edits, stress patterns");
+  (("index/context.rs", "pop_file", "method", "expect", 0%nat), Oracle "indexer / handler code outside the op-level model: all queries at all offsets on generated programs, prefixes, token edits, stress patterns");
+  (("index/scope.rs", "pop", "method", "expect", 0%nat), Oracle "indexer / handler code outside the op-level model: all queries at all offsets on generated programs, prefixes, token edits, stress patterns");
+  (("index/scope.rs", "add_variable", "method", "expect", 0%nat), Oracle "indexer / handler code outside the op-level model: all queries at all offsets on generated programs, prefixes, token edits, stress patterns");
+  (("index/scope.rs", "find_variable_in_current_scope", "method", "expect", 0%nat), Oracle "indexer / handler code outside the op-level model: all queries at all offsets on generated programs, prefixes, token edits, stress patterns")
 ].
 
 Definition site_disposed (s : site) : bool := existsb (fun d => site_eqb s (fst d)) dispositions.
